@@ -101,6 +101,11 @@ def cases(tier, seed):
         if not monos:
             continue
         out.append({"input": {"kind": "program", "text": text, "monomials": monos}, "N": 4, "kmax": kmax})
+    # high orders (binomial coefficients with n >= 5 only appear from order 5 on) on three cheap programs
+    for text in ("x = 0\nwhile true:\n    x = x + 2 {1/4} x - 1 {1/4} x\nend\n",
+                 "c = 0\nx = 1\nwhile true:\n    c = Bernoulli(1/3)\n    x = x + c\nend\n",
+                 "x = 0\nwhile true:\n    x = DiscreteUniform(0, 3)\nend\n"):
+        out.append({"input": {"kind": "program", "text": text, "monomials": ["x"], "high": True}, "N": 3, "kmax": 6})
     for kv in GC_GRID:
         for k in (3, 4, 5):
             if any(kv[j] != 0 for j in range(k + 1, 6)):
@@ -144,7 +149,7 @@ def run_program(case):
     import time as _time
 
     _t0 = _time.process_time()
-    CASE = 150 if THOROUGH else 20
+    CASE = 150 if (THOROUGH or case["input"].get("high")) else 20
 
     def spent_out():
         if _time.process_time() - _t0 > CASE:
@@ -211,7 +216,7 @@ def run_program(case):
                 break
             # central moment
             try:
-                with cpu_limit(8 if not THOROUGH else 60):
+                with cpu_limit(8 if not (THOROUGH or case["input"].get("high")) else 60):
                     gt, gd = GoalParser.parse("c%d(%s)" % (k, mono))
                     sol, exact = ga.handle_central_moment_goal(gd)
                     sol = sympy.sympify(sol)
@@ -228,7 +233,7 @@ def run_program(case):
                 stats["refusals"][kk] = stats["refusals"].get(kk, 0) + 1
             # cumulant
             try:
-                with cpu_limit(8 if not THOROUGH else 60):
+                with cpu_limit(8 if not (THOROUGH or case["input"].get("high")) else 60):
                     gt, gd = GoalParser.parse("k%d(%s)" % (k, mono))
                     sol, exact = ga.handle_cumulant_goal(gd)
                     sol = sympy.sympify(sol)
